@@ -21,6 +21,7 @@ def main():
         args = [a for a in args if a != tier]
     names = args or sorted(os.listdir(os.path.join(V, "seeded")))
     results = []
+    details = []
     for name in names:
         d = os.path.join(V, "seeded", name)
         if not os.path.exists(os.path.join(d, "patch.diff")):
@@ -36,6 +37,7 @@ def main():
         if r.returncode != 0:
             print("%-28s PATCH DOES NOT APPLY: %s" % (name, r.stdout[-300:]))
             results.append((name, "noapply"))
+            details.append([])
             shutil.rmtree(scratch, ignore_errors=True)
             continue
         env = dict(os.environ)
@@ -57,8 +59,15 @@ def main():
         status = "CAUGHT" if caught else "MISSED"
         print("%-28s %-7s %5.0fs %s" % (name, status, time.time() - t0, "; ".join("%s %s" % (c, s) for c, s in caught)[:400]), flush=True)
         results.append((name, status))
+        details.append([{"check": c, "signatures": [x.replace("signature: ", "")[:200] for x in sg]} for c, sg in caught])
         if "--keep" not in sys.argv:
             shutil.rmtree(scratch, ignore_errors=True)
+    # merge into the committed results table (one entry per seed: last outcome)
+    rp = os.path.join(V, "seeded", "selftest_results.json")
+    table = json.load(open(rp)) if os.path.exists(rp) else {}
+    for (n, st), det in zip(results, details):
+        table[n] = {"status": st, "tier": tier, "caught_by": det}
+    json.dump(table, open(rp, "w"), indent=1, sort_keys=True)
     missed = [n for n, s in results if s != "CAUGHT"]
     print("selftest: %d seeded changes, %d caught, missed: %s" % (len(results), len(results) - len(missed), missed))
     return 1 if missed else 0
